@@ -2,12 +2,21 @@
 C18 normal return implies the rule): lists of symbolic length with symbolically typed entries"""
 import z3
 
-from pyvc.contract import Contract, LoopContract, Scope, contract, loop_contract
+from pyvc.contract import Contract, LoopContract, Scope, contract, loop_contract, store_target, loop_assigned
 from pyvc.values import SymV, Obj, SymSeq, PyDict, PyList, mk, ival, rval, bval, nameval
 from pyvc import builtins as B
 
 LQ = "nasim.scenarios.loader.ScenarioLoader."
 I_, R_, B_ = z3.IntSort(), z3.RealSort(), z3.BoolSort()
+
+
+def size_var(I, name, concrete_value):
+    """a list length / count: an unconstrained symbol in the unbounded task, a small literal in the bounded stand-in task
+    (driver phase 3: the real loops are then unrolled and need no invariant - the route taken when a refactoring moves
+    a loop out of its invariant's reach)"""
+    if I.ext_state.get("concrete") is not None:
+        return z3.IntVal(concrete_value)
+    return z3.Int(name)
 
 
 def loader_obj(I, **f):
@@ -338,7 +347,7 @@ class IsValidFirewallSetting(Contract):
         return ["list", "not-a-list"]
 
     def setup(self, I, variant):
-        n, nSrv = z3.Int("doc_fw_len"), z3.Int("doc_nSrv")
+        n, nSrv = size_var(I, "doc_fw_len", 3), size_var(I, "doc_nSrv", 2)
         I.ctx.assume(z3.And(n >= 0, nSrv >= 1))
         I.ext_state.update(fw_n=n, fw_nSrv=nSrv)
         if variant == "list":
@@ -366,70 +375,82 @@ class IsValidFirewallSetting(Contract):
 # the three name -> bool dicts of a host, built by loops over the scenario's name lists (names 0..n-1 in list order):
 # domain = exactly the scenario's names, in list order; value = what the host configuration says
 
-from pyvc.values import SDict
+from pyvc.values import SDict, NameK
 
 hc_srv = z3.Function("doc_host_service", I_, I_)        # the host's services list
 hc_proc = z3.Function("doc_host_process", I_, I_)
 
 
-def _hc_runs(which, x):
+def _hc_runs(I, which, x):
     """does the host configuration list name x"""
     if which == "os":
         return x == z3.Int("doc_host_os")
-    f, n = (hc_srv, z3.Int("doc_n_host_srv")) if which == "services" else (hc_proc, z3.Int("doc_n_host_proc"))
+    f = hc_srv if which == "services" else hc_proc
+    n = I.ext_state["hc_m"][which]
     j = z3.Int("hc_rj_" + which)
     return z3.Exists([j], z3.And(0 <= j, j < n, f(j) == x))
 
 
-def hc_dict_spec(which, d, k):
+def hc_dict_spec(I, which, d, k):
     """d holds exactly the first k names of the scenario list with the configured truth values"""
     x = z3.Int("hc_x_" + which)
+    ks = z3.simplify(k) if z3.is_expr(k) else z3.IntVal(k)
     if isinstance(d, PyDict):
-        zero = z3.is_int_value(z3.simplify(k)) and z3.simplify(k).as_long() == 0
-        return [("dict-holds-the-first-names", z3.BoolVal(bool(zero and not d.d and not d.sym)))]
+        # concrete-length run (loop unrolled): an ordinary dict with literal keys
+        if not z3.is_int_value(ks) or d.sym:
+            return [("dict-holds-the-first-names", z3.BoolVal(False))]
+        kk = ks.as_long()
+        keys = list(d.d.keys())
+        want = [NameK(i) for i in range(kk)]
+        cs = [z3.BoolVal(keys == want)]
+        if keys == want:
+            cs += [bval(d.d[NameK(i)]) == _hc_runs(I, which, z3.IntVal(i)) for i in range(kk)]
+        return [("dict-holds-the-first-names", z3.And(*cs))]
     if not isinstance(d, SDict):
         return [("dict-holds-the-first-names", z3.BoolVal(False))]
     return [("keys-are-the-first-names", z3.ForAll([x], z3.Select(d.dom, x) == z3.And(0 <= x, x < k))),
             ("values-are-the-configuration", z3.ForAll([x], z3.Implies(z3.And(0 <= x, x < k),
-                                                                        z3.Select(d.val, x) == _hc_runs(which, x))))]
+                                                                        z3.Select(d.val, x) == _hc_runs(I, which, x))))]
 
 
 class _HcLoop(LoopContract):
     qualname = LQ + "_construct_host_config"
     tags = ("C17", "C09", "C01")
-    var, which, target = None, None, None
+    which = None
 
     def snapshot(self, I, fr, seq):
-        return {}
+        return {"var": store_target(self.st)}
 
     def havoc(self, I, fr, entry, seq):
         A = z3.ArraySort
+        var = entry["var"]
         # ghost iteration order: the names are inserted in list order and are pairwise distinct (checked by
         # _validate_os / _validate_services / _validate_processes), so the dict iterates in list order
-        fr.locals[self.var] = SDict(1, "bool", I.ctx.fresh(self.var + "_dom", A(I_, B_)), I.ctx.fresh(self.var + "_val", A(I_, B_)),
-                                    keyseq=SymSeq(seq.n, seq.elem, self.var + ".keys"), fresh=True, label=self.var)
-        fr.locals.pop(self.target, None)
+        fr.locals[var] = SDict(1, "bool", I.ctx.fresh(var + "_dom", A(I_, B_)), I.ctx.fresh(var + "_val", A(I_, B_)),
+                               keyseq=SymSeq(seq.n, seq.elem, var + ".keys"), fresh=True, label=var)
+        for t in loop_assigned(self.st):
+            fr.locals.pop(t, None)
 
     def inv(self, I, fr, entry, seq, k):
-        return hc_dict_spec(self.which, fr.locals[self.var], k)
+        return hc_dict_spec(I, self.which, fr.locals[entry["var"]], k)
 
 
 @loop_contract
 class HcOsLoop(_HcLoop):
     ordinal = 0
-    var, which, target = "os_cfg", "os", "os_name"
+    which = "os"
 
 
 @loop_contract
 class HcSrvLoop(_HcLoop):
     ordinal = 1
-    var, which, target = "services_cfg", "services", "service"
+    which = "services"
 
 
 @loop_contract
 class HcProcLoop(_HcLoop):
     ordinal = 2
-    var, which, target = "processes_cfg", "processes", "process"
+    which = "processes"
 
 
 @contract
@@ -442,9 +463,10 @@ class ConstructHostConfig(Contract):
     tags = {"": ("C17", "C09", "C01")}
 
     def setup(self, I, variant):
-        nOS, nSrv, nProc = z3.Int("doc_nOS"), z3.Int("doc_nSrv"), z3.Int("doc_nProc")
-        ms, mp = z3.Int("doc_n_host_srv"), z3.Int("doc_n_host_proc")
+        nOS, nSrv, nProc = size_var(I, "doc_nOS", 2), size_var(I, "doc_nSrv", 3), size_var(I, "doc_nProc", 2)
+        ms, mp = size_var(I, "doc_n_host_srv", 2), size_var(I, "doc_n_host_proc", 1)
         I.ctx.assume(z3.And(nOS >= 1, nSrv >= 1, nProc >= 1, ms >= 0, mp >= 0))
+        I.ext_state["hc_m"] = {"services": ms, "processes": mp}
         cfg = PyDict({"os": SymV(z3.Int("doc_host_os"), "name"),
                       "services": SymSeq(ms, lambda j: SymV(hc_srv(ival(j)), "name"), "list"),
                       "processes": SymSeq(mp, lambda j: SymV(hc_proc(ival(j)), "name"), "list")}, fresh=False)
@@ -458,14 +480,16 @@ class ConstructHostConfig(Contract):
 
     def ensures(self, I, S):
         r = S.result
-        ok = isinstance(r, tuple) and len(r) == 3 and all(isinstance(d, SDict) for d in r)
+        ok = isinstance(r, tuple) and len(r) == 3 and all(isinstance(d, (SDict, PyDict)) for d in r)
         out = [("C17.three-config-maps", z3.BoolVal(ok))]
         if not ok:
             return out
         for which, d in zip(("os", "services", "processes"), r):
             n = S.extra["n"][which]
-            for l, t in hc_dict_spec(which, d, n):
+            for l, t in hc_dict_spec(I, which, d, n):
                 out.append((f"C17.host-{which}-map.{l}", t))
+            if isinstance(d, PyDict):
+                continue            # literal keys: the order is part of dict-holds-the-first-names
             ks = d.keyseq
             j = z3.Int("hc_kj")
             out.append((f"C09.host-{which}-map.keys-in-scenario-list-order", z3.And(
@@ -521,7 +545,14 @@ doc_topo = z3.Function("doc_topology", I_, I_, I_)
 has_key = z3.Function("doc_has_key", I_, B_)               # the section has this (string) key
 
 
-def subnets_seq(nS):
+CONC_SUBNETS = [1, 2, 1]          # bounded stand-in task: internet + two subnets with literal sizes
+
+
+def subnets_seq(nS, I=None):
+    if I is not None and I.ext_state.get("concrete") is not None:
+        for j, v in enumerate(CONC_SUBNETS):
+            I.ctx.assume(doc_size(z3.IntVal(j)) == v)
+        return PyList(list(CONC_SUBNETS), fresh=False)
     return SymSeq(nS, lambda j: SymV(doc_size(ival(j)), "int"), "list")
 
 
@@ -531,6 +562,11 @@ def keys_coll():
 
 def hosts_covered(k, upto=None):
     """every address (s, m) with 1 <= s < k (and, for s == k if upto is given, m < upto) is a key"""
+    ks = z3.simplify(k) if z3.is_expr(k) else z3.IntVal(k)
+    if z3.is_int_value(ks) and upto is None and ks.as_long() <= len(CONC_SUBNETS):
+        # bounded stand-in task (literal subnet sizes): the explicit conjunction
+        return z3.And(*[has_key(B.ADDR_STR(z3.IntVal(a), z3.IntVal(b))) for a in range(1, ks.as_long())
+                        for b in range(CONC_SUBNETS[a])])
     s, m = z3.Int("ha_s"), z3.Int("ha_m")
     rng = z3.And(1 <= s, s < k, 0 <= m, m < doc_size(s))
     if upto is not None:
@@ -581,11 +617,11 @@ class HasAllHostAddresses(Contract):
     tags = {"": ("C17", "C18")}
 
     def setup(self, I, variant):
-        nS = z3.Int("doc_nS")
+        nS = size_var(I, "doc_nS", len(CONC_SUBNETS))
         j = z3.Int("hs_j")
         I.ctx.assume(z3.And(nS >= 2, z3.ForAll([j], doc_size(j) >= 0)))
         B.addr_axioms(I)
-        lo = loader_obj(I, subnets=subnets_seq(nS))
+        lo = loader_obj(I, subnets=subnets_seq(nS, I))
         S = Scope()
         S.extra.update(nS=nS)
         S.a = {"self": lo}
@@ -652,7 +688,7 @@ class ContainsAllRequiredFirewalls(Contract):
     tags = {"": ("C17", "C18")}
 
     def setup(self, I, variant):
-        nS = z3.Int("doc_nS")
+        nS = size_var(I, "doc_nS", 3)
         I.ctx.assume(nS >= 2)
         I.ext_state["fwc_nS"] = nS
         B.addr_axioms(I)
@@ -677,7 +713,7 @@ class ValidateHostAddress(_Leaf):
     qualname = LQ + "_validate_host_address"
 
     def setup(self, I, variant):
-        nS, key = z3.Int("doc_nS"), z3.Int("doc_key")
+        nS, key = size_var(I, "doc_nS", len(CONC_SUBNETS)), z3.Int("doc_key")
         j = z3.Int("hs_j")
         I.ctx.assume(z3.And(nS >= 2, z3.ForAll([j], doc_size(j) >= 0)))
         B.addr_axioms(I)
@@ -686,7 +722,7 @@ class ValidateHostAddress(_Leaf):
         valid = z3.And(B.EV_PAIR(key), is_int(B.EV_TA(key)), is_int(B.EV_TB(key)), 0 < a, a < nS, 0 <= b, b < doc_size(a))
         if variant == "valid":
             I.ctx.assume(valid)
-        lo = loader_obj(I, subnets=subnets_seq(nS))
+        lo = loader_obj(I, subnets=subnets_seq(nS, I))
         S = Scope()
         S.extra.update(variant=variant, valid=valid)
         S.a = {"self": lo}
@@ -791,7 +827,7 @@ class ValidateSensitiveHosts(_Leaf):
 
     def setup(self, I, variant):
         from pyvc.values import SymDict
-        nS, n, nh = z3.Int("doc_nS"), z3.Int("doc_n_sensitive"), z3.Int("doc_num_hosts")
+        nS, n, nh = size_var(I, "doc_nS", len(CONC_SUBNETS)), size_var(I, "doc_n_sensitive", 2), z3.Int("doc_num_hosts")
         j, i2 = z3.Int("hs_j"), z3.Int("hs_i")
         I.ctx.assume(z3.And(nS >= 2, n >= 0, nh >= 1, z3.ForAll([j], doc_size(j) >= 0)))
         # keys of a dict are pairwise different strings
@@ -804,7 +840,7 @@ class ValidateSensitiveHosts(_Leaf):
         spec = z3.And(n >= 1, n <= nh, sh_entries_ok(nS, n), sh_unique(n, n))
         if variant == "valid":
             I.ctx.assume(spec)
-        lo = loader_obj(I, subnets=subnets_seq(nS), num_hosts=SymV(nh, "int"))
+        lo = loader_obj(I, subnets=subnets_seq(nS, I), num_hosts=SymV(nh, "int"))
         S = Scope()
         S.extra.update(variant=variant, spec=spec)
         S.a = {"self": lo}
